@@ -2,6 +2,7 @@
 """tools/run_seeded.py [name ...] [--all-checks] — apply each /verif/seeded/<name>/patch.diff to /repo, run the check of the
 property it breaks (quick tier), undo, and rewrite /verif/seeded/INDEX.md. /repo is always restored."""
 import json, os, subprocess, sys, time
+os.environ["VERIF_EVIDENCE_DIR"] = "/tmp/verif-evidence-scratch"
 
 args = [a for a in sys.argv[1:] if not a.startswith("--")]
 root = "/verif/seeded"
